@@ -3,6 +3,7 @@ package main
 import (
 	"encoding/json"
 	"fmt"
+	"os"
 	"strings"
 	"time"
 
@@ -277,7 +278,7 @@ func (pc *pipeCase) preprocess(rp wproto.Rep, preCancelled bool) ([]pev, string)
 				add("return")
 			}
 		case "env":
-			if !preCancelled {
+			if op == "cancel" && !preCancelled { // ("env.cancel.pre" is only the gate's waiting point)
 				add("cancel")
 			}
 		case "settled":
@@ -335,6 +336,10 @@ CHECK_DEADLOCK FALSE
 				}
 			}
 		}
+	}
+	if os.Getenv("VERIF_DEBUG") != "" && res != nil && strings.Contains(res.Output, "unexpected exception") {
+		os.WriteFile("/tmp/ptrace_broken.ndjson", []byte(sb.String()), 0o644)
+		os.WriteFile("/tmp/ptrace_broken.out", []byte(res.Output), 0o644)
 	}
 	if err != nil {
 		v.Broken = err.Error()
